@@ -26,11 +26,34 @@ Proof. exact named_spec. Qed.
 Print Assumptions C05_named_object.
 
 (* it makes no difference which of the two forms is used *)
-Theorem C05_forms_agree : forall cfg w v lg sv tag its,
+Theorem C05_forms_agree : forall cfg w v c lg sv tag its,
   w_slots w v = None ->
-  snd (exec_prog cfg w (named_ops v lg sv tag its)) = snd (exec_prog cfg w [OOne lg sv tag its]).
+  snd (exec_prog cfg w (named_ops v lg sv tag its)) = snd (exec_prog cfg w [OOne c lg sv tag its]).
 Proof. exact forms_agree. Qed.
 Print Assumptions C05_forms_agree.
+
+(* a statement is a statement: executed in straight-line code, inside a destructor that runs during stack unwinding, inside
+   a catch handler or inside a destructor on normal scope exit, as one expression or as a named local — the same trace *)
+Theorem C05_context_irrelevant : forall cfg w c c' lg sv tag its,
+  exec_op cfg w (OOne c lg sv tag its) = exec_op cfg w (OOne c' lg sv tag its)
+  /\ exec_op cfg w (ONamed c lg sv tag its) = exec_op cfg w (ONamed c' lg sv tag its)
+  /\ exec_op cfg w (ONamed c lg sv tag its) = exec_op cfg w (OOne c' lg sv tag its)
+  /\ snd (exec_op cfg w (OOne c lg sv tag its)) = spec_stmt cfg (w_th w) lg sv tag its.
+Proof. exact context_irrelevant. Qed.
+Print Assumptions C05_context_irrelevant.
+
+(* the message is the concatenation, in order, of everything streamed — as long as no item makes the statement's
+   std::stringstream fail (a null const char*, a null streambuf*, a user operator<< setting failbit); after such an item the
+   standard stream writes nothing more (modelled as the code behaves; not part of the property's claim) *)
+Theorem C05_message_is_concatenation : forall its,
+  (forall it, In it its -> is_fail it = false) -> message its = concat (map item_text its).
+Proof. exact message_plain. Qed.
+Print Assumptions C05_message_is_concatenation.
+
+Theorem C05_message_until_stream_failure : forall pre k post,
+  (forall it, In it pre -> is_fail it = false) -> message (pre ++ IFail k :: post) = concat (map item_text pre).
+Proof. exact message_until_fail. Qed.
+Print Assumptions C05_message_until_stream_failure.
 
 (* exactly once iff enabled: member i of the sequence gets the record once iff (sv >= minimum and the filter accepts) *)
 Theorem C05_sink_exactly_once_iff_enabled : forall cfg th lg sv tag its i,
@@ -188,11 +211,11 @@ Example C05_ex_below_minimum :
 Proof. reflexivity. Qed.
 Example C05_ex_named_interleaved :
   run cfg_info [OSet 0 1 Fatal; OOpen 0 lg_band Warn None; OPut 0 (ICall KFunctor 1 (B "p")); OSet 0 0 Fatal;
-                OOne lg_band Error None [IStr (B "q")]; OPut 0 (INum (-5)); OClose 0]
+                OOne CUnwinding lg_band Error None [IStr (B "q")]; OPut 0 (INum (-5)); OClose 0]
   = [Call 1; Format (mkRecord Warn (B "") (B "p-5")); Sink 0 Warn (B "3||p-5"); Sink 1 Warn (B "3||p-5")].
 Proof. reflexivity. Qed.
 Example C05_ex_other_record_type :
-  run cfg_info [OSet 1 0 Warn; OSet 1 1 Fatal; OSet 0 0 Fatal; OOne lg_band_b Error (Some (B "tg")) [IStr (B "q")]; OOne lg_band Error None [IStr (B "r")]]
+  run cfg_info [OSet 1 0 Warn; OSet 1 1 Fatal; OSet 0 0 Fatal; ONamed CUnwinding lg_band_b Error (Some (B "tg")) [IStr (B "q")]; OOne CCatch lg_band Error None [IStr (B "r")]]
   = [Format (mkRecord Error (B "") (B "q")); Sink 0 Error (B "4||q"); Sink 1 Error (B "4||q")].
 Proof. reflexivity. Qed.
 Example C05_ex_nested :
